@@ -78,6 +78,7 @@ fn main() {
   let noise = args.iter().any(|a| a == "--noise");
   for_each_case(&args[1], |idx, toks| {
     writeln!(out, "C {}", idx).unwrap();
+    out.flush().unwrap();   // so that a crash (stack overflow, abort) is attributed to the case it happened in
     let mut t = Toks { t: &toks, i: 0 };
     assert_eq!(t.next(), "T");
     let n: usize = t.num();
